@@ -2,6 +2,7 @@ import PprofVerif.Lemmas.GraphOrder
 import PprofVerif.Gen.Comparators
 import PprofVerif.Gen.MapRanges
 import PprofVerif.Spec.MapRangesExpected
+import PprofVerif.Model.TrimOrder
 /-!
 # C08 — identical inputs and options give byte-identical output
 
@@ -273,5 +274,24 @@ theorem map_ranges_reviewed :
     PV.Spec.MapRangesExpected.reviewed.all Reviewed.consistent = true ∧
     PV.Spec.MapRangesExpected.huntedSites = [] ∧
     PV.Spec.MapRangesExpected.sites.all (fun s => decide (s.kind = SinkKind.append)) = true := by decide
+
+/-! ## composed with C05: the orders of C05's trim model are the regenerated ones
+
+C05 (`Props/C05.lean`, section "composed with C08") proves that the entries of a trimmed text
+report are sorted — and uniquely arranged — by the comparators denoted by the descriptor lists
+`Trim.flatNameKeys` / `Trim.cumNameKeys` (`Model/TrimOrder.lean`, written out by hand so that C05
+does not depend on regenerated files).  The per-run obligation below re-checks, against the lists
+just regenerated from graph.go, that those ARE `Nodes.Sort`'s FlatNameOrder / CumNameOrder and
+that the score map of CumNameOrder is the cumulative weight (C05 reads `Score` as `Cum`). -/
+
+theorem trim_orders_are_the_regenerated_ones :
+    PV.Trim.flatNameKeys = PV.Gen.Comparators.nodes_FlatNameOrder ∧
+    PV.Trim.cumNameKeys = PV.Gen.Comparators.nodes_CumNameOrder ∧
+    PV.Gen.Comparators.nodes_CumNameOrder_score = .field .Cum := by decide
+
+/-- both are among the node orders covered by `nodes_order_strict_total_partial` -/
+theorem trim_orders_covered :
+    (PV.Trim.flatNameKeys, ScoreSrc.external "") ∈ nodeOrders ∧
+    (PV.Trim.cumNameKeys, ScoreSrc.field .Cum) ∈ nodeOrders := by decide
 
 end PV.Props.C08
